@@ -348,6 +348,15 @@ func (g *generator) scalarDomain(fd protoreflect.FieldDescriptor) []classed {
 			}
 			out = append(out, c("enum-"+string(vs.Get(i).Name()), vs.Get(i).Number()))
 		}
+		// proto3 enums are open: numbers no value declares travel as their int32 (a negative one sign-extended to a
+		// ten-byte varint) and must survive both families unchanged
+		maxN := protoreflect.EnumNumber(0)
+		for i := 0; i < vs.Len(); i++ {
+			if vs.Get(i).Number() > maxN {
+				maxN = vs.Get(i).Number()
+			}
+		}
+		out = append(out, c("enum-undeclared", maxN+1), c("enum-negative", protoreflect.EnumNumber(-1)), c("enum-min", protoreflect.EnumNumber(-2147483648)))
 		return out
 	}
 	panic("scalarDomain: " + fd.Kind().String())
